@@ -533,9 +533,107 @@ def check_func_case(name, src, want, acc):
   acc.count("illegal" if want else "legal")
 
 
+# ------------------------------------------------------------------ hand-written designs: shapes the IR does not express
+
+HAND_HEAD = """from pymtl3 import *
+i = 0      # a module-level name that update blocks shadow with their own loop variable
+
+@bitstruct
+class HSt:
+  a: Bits4
+  b: Bits4
+
+"""
+
+
+def _cls(name, body, base="Component"):
+  return f"class {name}( {base} ):\n  def construct( s ):\n" + "".join("    " + l + "\n" for l in body)
+
+
+def hand_cases():
+  """(name, source, class to elaborate, expected exception class name | None, classes to elaborate BEFORE it)"""
+  C = []
+  def add(name, body, want, pre=(), extra=""): C.append((name, HAND_HEAD + extra + _cls("HandD", body), want, pre))
+  # one block writes a signal whole and one of its parts; a net reads / drives another part
+  add("whole+field-same-block:net-reads-other-field", ["s.in_ = InPort( HSt )", "s.x = Wire( HSt )", "s.out = OutPort( Bits4 )",
+      "@update", "def up():", "  s.x @= s.in_", "  s.x.a @= 1", "connect( s.x.b, s.out )"], None)
+  add("whole+slice-same-block:net-reads-overlapping-slice", ["s.in_ = InPort( Bits8 )", "s.w = Wire( Bits8 )", "s.out = OutPort( Bits7 )",
+      "@update", "def up():", "  s.w @= s.in_", "  s.w[1:7] @= 1", "connect( s.out, s.w[1:8] )"], None)
+  add("whole+slice-same-block:net-drives-other-slice", ["s.in_ = InPort( Bits8 )", "s.w = Wire( Bits8 )",
+      "@update", "def up():", "  s.w @= 1", "  s.w[7:8] @= 1", "connect( s.in_[6:8], s.w[2:4] )"], "MultiWriterError")
+  add("whole+field-same-block:net-drives-other-field", ["s.in_ = InPort( HSt )", "s.x = Wire( HSt )", "s.k = InPort( Bits4 )",
+      "@update", "def up():", "  s.x @= s.in_", "  s.x.a @= 1", "connect( s.k, s.x.b )"], "MultiWriterError")
+  # augmented assignments other than @= / <<=
+  for op in ("+=", "|=", "&=", "^=", ">>="):
+    add(f"operator:{op}:update", ["s.in_ = InPort( Bits8 )", "s.out = OutPort( Bits8 )", "@update", "def up():", f"  s.out {op} s.in_"], "UpdateBlockWriteError")
+    add(f"operator:{op}:update_ff", ["s.in_ = InPort( Bits8 )", "s.out = OutPort( Bits8 )", "@update_ff", "def up():", f"  s.out {op} s.in_"], "UpdateFFBlockWriteError")
+  # connection loops
+  add("loop:self-connection", ["s.in_ = InPort( Bits8 )", "s.w = Wire( Bits8 )", "connect( s.w, s.in_ )", "connect( s.w, s.w )"], "InvalidConnectionError")
+  # a loop variable that shadows a module-level name: the block writes BOTH list elements
+  add("shadowed-loop-variable:second-writer-of-element-1", ["s.in_ = InPort( Bits8 )", "s.out = [ OutPort( Bits8 ) for _ in range(2) ]",
+      "@update", "def up_loop():", "  for i in range(2):", "    s.out[i] @= s.in_", "@update", "def up_one():", "  s.out[1] @= 0"], "MultiWriterError")
+  add("shadowed-loop-variable:single-writer", ["s.in_ = InPort( Bits8 )", "s.out = [ OutPort( Bits8 ) for _ in range(2) ]",
+      "@update", "def up_loop():", "  for i in range(2):", "    s.out[i] @= s.in_"], None)
+  add("unshadowed-loop-variable:second-writer-of-element-1", ["s.in_ = InPort( Bits8 )", "s.out = [ OutPort( Bits8 ) for _ in range(2) ]",
+      "@update", "def up_loop():", "  for jj in range(2):", "    s.out[jj] @= s.in_", "@update", "def up_one():", "  s.out[1] @= 0"], "MultiWriterError")
+  # index expressions: provably disjoint writes from two blocks
+  add("index-expression:N-1", ["s.in_ = InPort( Bits8 )", "s.out = [ OutPort( Bits8 ) for _ in range(2) ]", "N = 2",
+      "@update", "def up_a():", "  s.out[0] @= s.in_", "@update", "def up_b():", "  s.out[N-1] @= 0"], None)
+  add("index-expression:slice-N:2N", ["s.in_ = InPort( Bits4 )", "s.out = OutPort( Bits8 )", "N = 4",
+      "@update", "def up_a():", "  s.out[0:N] @= s.in_", "@update", "def up_b():", "  s.out[N:2*N] @= 0"], None)
+  # a subclass whose block has the name of a block of its base class (the base class is elaborated first)
+  base = _cls("HBase", ["s.in_ = InPort( Bits8 )", "s.out = OutPort( Bits8 )", "@update", "def up():", "  s.out @= s.in_"])
+  C.append(("subclass-same-block-name:two-writers", HAND_HEAD + base + _cls("HandD", ["s.in_ = InPort( Bits8 )", "s.out = OutPort( Bits8 )", "s.out2 = OutPort( Bits8 )",
+      "@update", "def up():", "  s.out @= s.in_", "  s.out2 @= s.in_", "@update", "def up2():", "  s.out2 @= 0"], base="HBase"), "MultiWriterError", ("HBase",)))
+  C.append(("subclass-same-block-name:legal", HAND_HEAD + base + _cls("HandD", ["s.in_ = InPort( Bits8 )", "s.out = OutPort( Bits8 )", "s.out2 = OutPort( Bits8 )",
+      "@update", "def up():", "  s.out @= s.in_", "  s.out2 @= s.in_"], base="HBase"), None, ("HBase",)))
+  # port rules for connections made by a component that owns neither side
+  leaf = _cls("HLeaf", ["s.in_ = InPort( Bits8 )", "s.out = OutPort( Bits8 )", "s.w1 = Wire( Bits8 )", "s.w2 = Wire( Bits8 )", "@update", "def up_l():", "  s.w1 @= s.in_"])
+  leaf2 = _cls("HLeaf", ["s.in_ = InPort( Bits8 )", "s.out = OutPort( Bits8 )", "@update", "def up_l():", "  s.out @= s.in_"])
+  mid = _cls("HMid", ["s.in_ = InPort( Bits8 )", "s.l = HLeaf()", "s.l.in_ //= s.in_"])
+  C.append(("port-rule:grandparent-loopback", HAND_HEAD + leaf2 + _cls("HMid", ["s.l = HLeaf()"]) + _cls("HandD", ["s.m = HMid()", "s.m.l.in_ //= s.m.l.out"]), "InvalidConnectionError", ()))
+  # partly driven net sources
+  add("partial-driver:disjoint-slice(control)", ["s.in_ = InPort( Bits4 )", "s.y = Wire( Bits8 )", "s.out = OutPort( Bits4 )", "s.y[0:4] //= s.in_", "s.out //= s.y[4:8]"], "NoWriterError")
+  add("partial-driver:overlapping-slice", ["s.in_ = InPort( Bits4 )", "s.y = Wire( Bits8 )", "s.out = OutPort( Bits4 )", "s.y[0:4] //= s.in_", "s.out //= s.y[2:6]"], "NoWriterError")
+  add("partial-driver:struct-with-one-driven-field", ["s.in_ = InPort( Bits4 )", "s.x = Wire( HSt )", "s.out = OutPort( HSt )", "s.x.a //= s.in_", "s.out //= s.x"], "NoWriterError")
+  # overlapping slices that are both READERS of one net
+  add("overlapping-readers:one-net", ["s.x = InPort( Bits4 )", "s.y = Wire( Bits8 )", "connect( s.x, s.y[0:4] )", "connect( s.x, s.y[2:6] )"], "MultiWriterError")
+  add("overlapping-readers:two-nets(control)", ["s.x = InPort( Bits4 )", "s.x2 = InPort( Bits4 )", "s.y = Wire( Bits8 )", "connect( s.x, s.y[0:4] )", "connect( s.x2, s.y[2:6] )"], "MultiWriterError")
+  add("disjoint-readers:one-net(control)", ["s.x = InPort( Bits4 )", "s.y = Wire( Bits8 )", "connect( s.x, s.y[0:4] )", "connect( s.x, s.y[4:8] )"], None)
+  # names of the blocks generated for `//= lambda`
+  add("lambda-names:field-vs-underscore", ["s.in_ = InPort( Bits4 )", "s.a = OutPort( HSt )", "s.a_b = OutPort( Bits4 )", "s.a.b //= lambda: s.in_ + 1", "s.a.a //= 0", "s.a_b //= lambda: s.in_ + 2"], None)
+  add("lambda-names:list-vs-underscore", ["s.in_ = InPort( Bits4 )", "s.o = [ OutPort( Bits4 ) for _ in range(2) ]", "s.o_0_ = OutPort( Bits4 )", "s.o[0] //= lambda: s.in_ + 1", "s.o[1] //= 0", "s.o_0_ //= lambda: s.in_ + 2"], None)
+  return C
+
+
+def check_hand_case(name, src, want, pre, acc, nperm=8):
+  fam = "hand"
+  for hp in range(nperm):
+    mult = (1, 7919, 104729, 31, 65537, 999983, 17, 524287)[hp]
+    with seams.hash_seam(lambda o, i: (i * mult + hp) % 1000003):
+      mod = ir.load_src(src)
+      try:
+        for c in pre:
+          b = getattr(mod, c)(); b.elaborate()
+        top = mod.HandD()
+        top.elaborate()
+        got, msg = None, ""
+      except Exception as ex:
+        got, msg = type(ex).__name__, str(ex).strip()[:140]
+      finally:
+        ir.unload(mod.__name__)
+    acc.count("evaluations")
+    if got != want:
+      sig = f"hand:legal-design-rejected:{got}" if want is None else (f"hand:illegal-design-accepted:{want}" if got is None else f"hand:wrong-error:{want}->{got}")
+      acc.violation(sig + ":" + name, dict(name=name, kind="hand", hp=hp), want, got if got is None else f"{got}: {msg}", name)
+  acc.count("cases")
+  acc.add("expect", ("hand", want))
+  acc.count("illegal" if want else "legal")
+
+
 def shards(tier):
   k = 48
-  return [(i, k) for i in range(k)] + [("func",)]
+  return [(i, k) for i in range(k)] + [("func",), ("hand",)]
 
 
 def run_shard(shard, tier, seed):
@@ -543,6 +641,9 @@ def run_shard(shard, tier, seed):
   TIER[0] = tier
   if shard[0] == "func":
     for name, src, want in func_cases(): check_func_case(name, src, want, acc)
+    return acc
+  if shard[0] == "hand":
+    for name, src, want, pre in hand_cases(): check_hand_case(name, src, want, pre, acc)
     return acc
   for j, (name, d) in enumerate(all_cases()):
     if j % shard[1] != shard[0]: continue
@@ -553,6 +654,10 @@ def run_shard(shard, tier, seed):
 
 def replay(case):
   acc = Acc()
+  if case.get("kind") == "hand":
+    for name, src, want, pre in hand_cases():
+      if name == case["name"]: check_hand_case(name, src, want, pre, acc)
+    return [(v["sig"], v["expected"], v["observed"], v["msg"]) for v in acc.violations][:4]
   if case.get("kind") == "func":
     for name, src, want in func_cases():
       if name == case["name"]: check_func_case(name, src, want, acc)
